@@ -6,12 +6,12 @@ def fill(add):
         "bounded-exhaustive input enumeration through the real API with an independent digest/byte oracle",
         "Every write entry point x sync/async side x 3 flavour builds x 5 algorithms x size table (0..3 MiB incl. mmap threshold -1/0/+1) x chunkings (all compositions for n<=6, structured family above) x declared size x hostile keys is executed against the real library; the returned integrity is compared with hashlib/xxhash-rust, the content file and every read entry point with the exact bytes.",
         "Trusted: hashlib (OpenSSL) digests, the xxhash-rust crate for xxh3, tmpfs semantics. Sizes and chunkings are the stated finite tables, not all inputs.",
-        "DESIGN.md 4/C02", "seqx")
+        "DESIGN.md 4/C02", "seqx+fsx")
     add("C01", "fault_enumeration",
         "exhaustive fault enumeration on the on-disk state (damage states x checked retrieval entry points)",
-        "Every damage state of the content file (all single-bit flips and truncation lengths of small files, boundary offsets of large ones, extension, empty, another entry's bytes, symlink substitution, directory) is put on disk and every checked retrieval entry point of all three flavour builds is executed on it; a success must deliver exactly the stored bytes.",
+        "Every damage state of the content file (all single-bit flips and truncation lengths of small files, boundary offsets of large ones, extension, empty, another entry's bytes, symlink substitution, directory) is put on disk and every checked retrieval entry point of all three flavour builds is executed on it; a success must deliver exactly the stored bytes. In addition every read system call of the checked retrievals is answered short (fsx short-answer mode) on pristine, flipped, truncated and extended content.",
         "Trusted: SHA-256 comparison of delivered bytes; reflink cannot succeed on the file systems available, so only its failures are exercised.",
-        "DESIGN.md 4/C01", "seqx")
+        "DESIGN.md 4/C01", "seqx+fsx")
     add("C05", "model_checking",
         "explicit-state breadth-first model checking of the implementation's on-disk states against a dictionary model",
         "All histories up to the depth bound over writes (two record lengths, sync/async, session and one-shot), removals and foreign live/tombstone records on two sibling keys are executed on the real library from the empty cache and from a reference-written seed (tombstone, torn fragment, invalid-UTF-8 line); every distinct state is observed through every lookup entry point and compared with the model.",
@@ -29,9 +29,9 @@ def fill(add):
         "DESIGN.md 4/C10", "seqx")
     add("C16", "model_checking",
         "explicit-state BFS over re-write histories plus bounded-exhaustive digest enumeration with independent digest implementations",
-        "Returned addresses are compared with hashlib and coreutils (xxh3: xxhash-rust) for every algorithm x size x entry point x flavour; BFS over histories re-writing equal bytes through different keys, entry points, chunkings, flavours and algorithms (with damage actions) checks that content-v2 holds exactly one byte-identical file per (algorithm, bytes) and that each copy is verified with its own algorithm.",
+        "Returned addresses are compared with hashlib and coreutils (xxh3: xxhash-rust) for every algorithm x size x entry point x flavour; BFS over histories re-writing equal bytes through different keys, entry points, chunkings, flavours and algorithms (with damage actions) checks that content-v2 holds exactly one byte-identical file per (algorithm, bytes) and that each copy is verified with its own algorithm; a re-write of stored bytes is killed at every file-system system call (fsx) and the stored copy must stay in place.",
         "Trusted: hashlib/coreutils digests; xxh3 only against the same crate ssri uses.",
-        "DESIGN.md 4/C16", "seqx")
+        "DESIGN.md 4/C16", "seqx+fsx")
     add("C17", "model_checking",
         "two-way trace conformance between the implementation and an independent format codec over exhaustively enumerated histories",
         "Direction 1: every BFS state and every hostile-key/metadata write of the library is checked byte for byte against the documented grammar and decoded by the reference decoder. Direction 2: every history up to the bound, every hostile key and metadata value is written by the reference encoder (two serialiser variants) and read back through all lookup entry points of the three flavours.",
@@ -44,9 +44,9 @@ def fill(add):
         "DESIGN.md 4/C18", "seqx")
     add("C03", "fault_enumeration",
         "exhaustive crash-point and torn-write enumeration of the real writer process under a ptrace controller (fsx)",
-        "For every writer scenario (one-shot, streamed, memory-mapped and plain, keyed and by address, sync/async-std/tokio, cold/warm/address already present) the real process is killed at the entry of every file-system system call and with every write torn at every byte length (exhaustive up to 4 KiB, boundary values beyond); after every kill every file under content-v2 must sit at the digest of its bytes and a fresh process must read every address as complete data or absent. Also rejected/dropped writers (fewer/more bytes than declared) without any crash.",
+        "For every writer scenario (one-shot, streamed, memory-mapped and plain, keyed and by address, sync/async-std/tokio, cold/warm/address already present) the real process is killed at the entry of every file-system system call and with every write torn at every byte length (exhaustive up to 4 KiB, boundary values beyond); after every kill every file under content-v2 must sit at the digest of its bytes and a fresh process must read every address as complete data or absent. Also rejected/dropped writers (fewer/more bytes than declared) without any crash, and one injected failure of the publishing rename (EXDEV/EIO/ENOSPC) combined with the crash enumeration over everything that follows.",
         "Trusted: kernel atomicity of one write/rename system call with respect to the kill; crash = process death (nothing is fsynced, power loss is not claimed); mmap stores touch only the private temp file between two steps.",
-        "DESIGN.md 4/C03", "fsx")
+        "DESIGN.md 4/C03", "fsx+seqx")
     add("C04", "fault_enumeration",
         "exhaustive crash-point and torn-write enumeration (fsx) followed by explicit-state exploration of continuation histories",
         "Keyed writes (first, overwrite longer/shorter/same content, multi-byte key and metadata, rewrite after removal) and tombstone removals are killed at every system call and with the index append torn at every byte length; every distinct crash state is observed through all lookup entry points (old or new state exactly, other keys unchanged, reference decoder agrees) and every continuation history up to the depth bound is executed (later writes succeed and are visible through every entry point).",
@@ -64,7 +64,7 @@ def fill(add):
         "DESIGN.md 4/C13", "fsx")
     add("C15", "exploration",
         "exhaustive operation x hostile-key enumeration with complete system-call effect monitoring under ptrace (fsx monitor mode)",
-        "Every public operation (35 base operations, sync and async variants, 3 flavours) is run with every key of the hostile/confusable set on cold and warm caches with the root given absolute, relative and through a symlink; every path-taking or descriptor-writing system call is recorded with its resolved path: mutating calls only inside the root or on the explicit destination, touched paths derived only from SHA-1(key)/digest, read-only calls issue no mutating call and leave the tree unchanged.",
+        "Every public operation (35 base operations, sync and async variants, 3 flavours) is run with every key of the hostile/confusable set on cold, warm, index-only and tmp-blocked caches with the root given absolute, relative and through a symlink; every path-taking or descriptor-writing system call is recorded with its resolved path: mutating calls only inside the root or on the explicit destination, touched paths derived only from SHA-1(key)/digest, read-only calls issue no mutating call and leave the tree unchanged.",
         "Trusted: the monitor's system-call table and its mutating/non-mutating classification; lexical path resolution.",
         "DESIGN.md 4/C15", "fsx")
     add("C06", "fault_enumeration",
@@ -84,9 +84,9 @@ def fill(add):
         "DESIGN.md 4/C11", "seqx")
     add("C14", "model_checking",
         "explicit-state breadth-first model checking of on-disk states with abandonment episodes as actions; in-flight case with both completion orders",
-        "BFS over ordinary writes/removals plus abandonment episodes (sync/async, keyed/by address, bytes equal to an existing value or fresh, declared size none/correct/wrong, dropped after creation/1 chunk/2 chunks/flush/close, commits rejected by size/integrity/declared > 1 MiB); after every transition lookups, listing, tmp/ and the content file set must equal the model. In-flight: poll_write once then drop before/after the blocking task completes (async-std, tokio).",
-        "The two in-flight orders are forced by a delay, not by the ptrace scheduler. Data of a rejected commit may stay retrievable by address.",
-        "DESIGN.md 4/C14", "seqx")
+        "BFS over ordinary writes/removals plus abandonment episodes (sync/async, keyed/by address, bytes equal to an existing value or fresh, declared size none/correct/wrong, dropped after creation/1 chunk/2 chunks/flush/close, commits rejected by size/integrity/declared > 1 MiB); after every transition lookups, listing, tmp/ and the content file set must equal the model. In-flight: poll_write once, then the writer is dropped while the blocking task is in flight or after it completed (async-std, tokio); both orders are forced by hold rules of the ptrace controller and verified from the step trace.",
+        "For memory-mapped declared sizes (no write system call to hold) the two in-flight orders are forced by a delay instead. Data of a rejected commit may stay retrievable by address.",
+        "DESIGN.md 4/C14", "seqx+fsx")
     add("C19", "exploration",
         "bounded-exhaustive input and history enumeration through the real API (link_to builds)",
         "Target size x path form (absolute, relative, ../, via symlinked directory) x entry point (link_to*, link_to_hash*, WriteOpts::link_to* with correct/wrong size and integrity, stepwise linker with partial reads) x post-link event (modify, truncate, extend, remove, replace) x pre-existing regular content x flavour: reads return the bytes as of link time or fail, the content path is a symlink (no copy), the target's inode/mtime/bytes never change, wrong declarations are rejected and map nothing.",
